@@ -219,6 +219,20 @@ class Stack:
                                                     aggregate_func=tasks.c19_sum, **opts))
         self.thread: threading.Thread | None = None
 
+    def reregister(self, confs: list) -> None:
+        """the same functions registered again with other retry options on the living application (a re-deployed task module, an
+        options change at run time): from now on these options apply, in sync mode and on the running runner alike"""
+        tasks = T()
+        et = tasks.c19_exc_types()
+        self.confs = confs
+        self.plain, self.direct, self.dgroup = [], [], []
+        for i, (mr, rf) in enumerate(confs):
+            opts = dict(max_retries=mr, retry_for=tuple(et[x] for x in rf))
+            self.plain.append(self.app.task(getattr(tasks, f"c19_p{i}"), **opts))
+            self.direct.append(self.app.direct_task(getattr(tasks, f"c19_d{i}"), **opts))
+            self.dgroup.append(self.app.direct_task(getattr(tasks, f"c19_g{i}"), parallel_func=tasks.c19_fanout,
+                                                    aggregate_func=tasks.c19_sum, **opts))
+
     def start(self) -> None:
         if self.kind == "sync":
             return
@@ -713,6 +727,7 @@ def _run(ctx: Ctx, drv: LeanDriver) -> None:
 
     race_probe(ctx, drv, stats)
     multi_failure(ctx, drv, stats)
+    reregistration(ctx, drv, stats)
     ctx.notes["histogram"] = dict(sorted(stats.items()))
     ctx.assumptions += [
         "a stored exception comes back from the state backend unchanged (hypothesis `rt` of the theorems; C05/C15) — exercised for "
@@ -769,6 +784,56 @@ def race_probe(ctx: Ctx, drv: LeanDriver, stats: Counter) -> None:
             else:
                 judge_stack(ctx, p, confs, kind, r, "race-probe")
         stats[f"race probe: runs with extra executions ({kind})"] += bad
+
+
+def reregistration(ctx: Ctx, drv: LeanDriver, stats: Counter) -> None:
+    """one application per mode lives through TWO registrations of the same functions with different retry options; the programs
+    run after the second registration must behave as the model does under the second options - in sync mode and on the stacks whose
+    runner has been resolving these tasks all along"""
+    rng = ctx.rng
+    for rnd in range(1 if ctx.quick else 4):
+        confs1 = gen_confs(rng)
+        confs2 = [((mr + rng.choice([1, 2, 3])) % 5, rng.choice(RETRY_FOR) if rng.random() < 0.5 else rf) for mr, rf in confs1]
+        cand = [gen_node(rng, itertools.count(1), rng.choice([0, 1, 1, 2]), lazy_ok=False) for _ in range(30)]
+        progs, models = [], []
+        for p in cand:
+            outs = drv.ask_many([f"ex.dist {' '.join(enc_prog(p, c))}" for c in (confs1, confs2)] + [f"ex.class {' '.join(enc_prog(p, confs2))}", f"ex.class {' '.join(enc_prog(p, confs1))}"])
+            m1, m2 = parse_model(outs[0]), parse_model(outs[1])
+            if m1 is None or m2 is None or "unamb=true" not in outs[2] or "unamb=true" not in outs[3] or "safe=true" not in outs[2]:
+                continue
+            if sum(m1["log"].values()) > 25 or sum(m2["log"].values()) > 25:
+                continue
+            differs = (m1["out"], m1["log"]) != (m2["out"], m2["log"])
+            if differs or len(progs) < 3:
+                progs.append(p)
+                models.append((m2, differs))
+            if len(progs) >= (6 if ctx.quick else 12):
+                break
+        if not progs:
+            continue
+        runs = {}
+        for kind in ("sync", "mem") + (() if ctx.quick else ("sqlite",)):
+            st = Stack(kind, ctx.tmp, confs1, f"{ctx.seed}r{rnd}")
+            st.start()
+            try:
+                run_programs(st, progs, workers=2 if kind == "sqlite" else 4, execs=60)     # under the first registration
+                st.reregister(confs2)
+                runs[kind] = run_programs(st, progs, workers=2 if kind == "sqlite" else 4, execs=60)
+            finally:
+                st.stop()
+            ctx.count(2 * len(progs))
+        for i, p in enumerate(progs):
+            m2, differs = models[i]
+            stats["programs run after a second registration" + (" (options matter)" if differs else "")] += 1
+            ctx.distinct(json.dumps(["rereg", confs1, confs2, p], sort_keys=True))
+            for kind, rs in runs.items():
+                obs = summarize(rs[i])
+                if (obs["out"], obs["log"]) != (m2["out"], m2["log"]):
+                    ctx.report(f"stale-task-options:{kind}",
+                               f"[{kind}] the task functions were registered with {confs1} and then again with {confs2}; a program run afterwards gives {obs['out']!r} with "
+                               f"{sum(obs['log'].values())} executions, the options now in force give {m2['out']!r} with {sum(m2['log'].values())} executions"
+                               + ("" if kind == "sync" else f" (sync mode: {summarize(runs['sync'][i])['out']!r})"),
+                               {"prog": p, "confs": confs2, "confs_before": confs1, "stack": kind, "family": "reregistration"})
 
 
 def multi_failure(ctx: Ctx, drv: LeanDriver, stats: Counter) -> None:
